@@ -6,6 +6,7 @@ from collections import defaultdict
 from .core import (Origins, op_local, op_place, op_const, place_local, place_projs, proj_fields)
 
 DB = "fixtures::FixtureDatabase"
+SCALAR_VALUE = re.compile(r"^(u8|u16|u32|u64|u128|usize|i8|i16|i32|i64|i128|isize|bool|f32|f64|std::time::Instant|std::time::SystemTime|std::time::Duration|std::sync::atomic::Atomic\w+)$")
 
 
 def split_top(s):
@@ -34,6 +35,7 @@ class DbInfo:
         self.cg = self.lm.cg
         adt = self.crate.adts.get(DB)
         self.maps = {}  # field -> (key_ty, val_ty)
+        self.bookkeeping = {}
         self.mutexes = {}
         self.atomics = []
         self.missing = adt is None
@@ -43,14 +45,20 @@ class DbInfo:
                 m = re.match(r"^std::sync::Arc<dashmap::DashMap<(.*)>>$", ty)
                 if m:
                     args = split_top(m.group(1))
-                    self.maps[f["name"]] = (args[0], args[1] if len(args) > 1 else "")
+                    val = args[1] if len(args) > 1 else ""
+                    if SCALAR_VALUE.match(val):
+                        # bookkeeping (ticks, counters, timestamps per key): carries no analysis fact; the index / cache rules
+                        # do not look at it (the lock rules still do)
+                        self.bookkeeping[f["name"]] = (args[0], val)
+                        continue
+                    self.maps[f["name"]] = (args[0], val)
                 elif "std::sync::Mutex<" in ty:
                     self.mutexes[f["name"]] = ty
                 elif "Atomic" in ty:
                     self.atomics.append(f["name"])
         self.ops_by_map = defaultdict(list)
         for op in self.lm.ops:
-            if op.family == "dashmap" and op.ident.startswith("dashmap|%s." % DB):
+            if op.family == "dashmap" and op.ident.startswith("dashmap|%s." % DB) and op.ident.split(".")[-1] not in self.bookkeeping:
                 self.ops_by_map[op.ident.split(".")[-1]].append(op)
         self.origins = Origins(self.crate, self.cg)
 
@@ -119,7 +127,7 @@ class DbInfo:
     def append_ops(self):
         """entry()-based appends (entry -> or_default/or_insert -> in-place mutation)"""
         return [op for op in self.lm.ops if op.family == "dashmap" and op.method in ("entry", "try_entry")
-                and op.ident.startswith("dashmap|%s." % DB)]
+                and op.ident.startswith("dashmap|%s." % DB) and op.ident.split(".")[-1] not in self.bookkeeping]
 
     def clears_by_file(self, f, mapname):
         """does function f clear map `mapname` for a file given by one of its parameters?
